@@ -209,6 +209,23 @@ def check(run):
                 ok, why = False, "write() must run the compressor without finishing it (action %s)" % show(calls[0]["args"][-1])
             elif not ok:
                 why = "write() loop condition is %s with %d compressor step(s); input is dropped unless it loops until avail_in == 0" % (show_f(c), len(calls))
+        if ok:
+            # ... on every path: a return in front of the loop leaves input behind unless the chunk is empty (a "small chunk"
+            # fast path that runs the compressor once does not know how much of the chunk that pass took)
+            order_ = {id(x): i for i, x in enumerate(ir.walk(wr["body"]))}
+            size_key = "p:%s" % wr["params"][1]["n"]
+            for st_, g_, lps_ in ir.guarded_statements(wr["body"], env):
+                if st_.get("k") != "Return" or order_.get(id(st_), 0) > order_[id(loops[0])]:
+                    continue
+                taken = [ir.eval_formula(g_, {size_key: v_}) for v_ in (1, 2, 100, 2048, 8128, 16384, 65536, 1 << 24)]
+                if any(t_ is True for t_ in taken):
+                    ok = False
+                    why = "write() returns in front of the consuming loop for a non-empty chunk (when %s): whatever the compressor did not take in " \
+                          "that pass is dropped" % show_f(g_)
+                    break
+                if any(t_ is None for t_ in taken):
+                    ok = None
+                    why = "write() returns in front of the consuming loop under %s, which is not a condition on the chunk size alone" % show_f(g_)
         run.ob("R14.2", "%s::write:loop-until-input-consumed" % tag, ok, wr, wr["line"],
                "loops until the compressor has consumed the whole chunk" if ok else why)
         # input pointers set from the arguments
